@@ -306,6 +306,16 @@ def run_c15(tier, seed, replay, keep):
     try:
         env = {"GORACE": "log_path=%s/race halt_on_error=0" % wd}
         parts = props.chunks(scenarios, 8)
+        if not replay:
+            # rapid.Make's per-type state is built once per process: every harness process begins with the nested pointer types, so that each
+            # type's first use by concurrent checks happens in every one of them (8 chances per type instead of one)
+            nested = [s for s in scenarios if s["gen"].get("k") == "Make" and "nested" in str(s["gen"].get("type", "")) and s["pairing"] == "draw"]
+            for j, part in enumerate(parts):
+                ids = {s["id"] for s in part}
+                extra = [dict(s, id="%s-p%d" % (s["id"], j)) for s in nested if s["id"] not in ids]
+                part[:0] = extra
+                for s in extra:
+                    by_id[s["id"]] = s
         import concurrent.futures as cf
         paths = []
 
